@@ -1,6 +1,6 @@
-"""C15 — picked protein: correspondence of Model/Strip.v + Model/Picked.v with
-mokapot.picked_protein.picked_protein / strip_peptides, utils.groupby_max and the protein level of
-assign_confidence (targets.proteins / decoys.proteins)."""
+"""C15 — picked protein: correspondence of Model/Strip.v + Model/Picked.v + Model/MatchDecoy.v with
+mokapot.picked_protein.picked_protein / strip_peptides, utils.groupby_max, peptides.match_decoy and the protein level
+of assign_confidence (targets.proteins / decoys.proteins)."""
 import copy
 import itertools
 import json
@@ -56,10 +56,24 @@ RULE = ("(1) strip_peptides vs the scanners: every string over {A,k,.,[,],(,),-}
         "over the file; the level columns of a hand-built dataset in any order after the peptide column; Parquet for every "
         "third case; deduplication=False (35%); file_root (20%); the second collection carries the same level columns - "
         "the protein entries must be those of the PEPTIDE level (the rows of the case), whatever other levels exist. "
+        "(5) peptides.match_decoy: (5a) every match_decoy call the real code makes during a case of (2)..(4L) (target-only FASTA) is "
+        "compared with md_match on the arguments as passed and the recorded shuffle - a sub-comparison of the case; (5b) direct "
+        "stream fn=match_decoy: 14 fixed cases (empty decoys / targets, repeated decoys, lower-case and modified strings whose "
+        "decoy key and target key differ, ignore_mods=False), every set of <= 3 targets out of {AB,BA,AAB,ABA,BAA,C} against every "
+        "decoy list of length <= 2 (thorough: <= 3, three seeds) over {AB,BA,ABA,CC}, random cases over residue alphabets of "
+        "2..4 residues (plain upper-case; residues with modifications 'M[+16]' 'K(ac)' 'Cox'; lower-case letters and symbols "
+        "in front of the first residue) with anagram groups of 1..4 targets and 0, 1, n-1, n, n+1, n+2 decoys per composition, "
+        "decoys of a composition no target has, repeated decoys (20%) and targets (10%), ignore_mods=False (25%), Series "
+        "dtypes object / str / string[python] / string[pyarrow] / built from dict keys, row labels permuted / offset / strings / "
+        "repeated / negative, rng Generator / int / numpy integer / RandomState / None (global state seeded), 3 (12) lists of "
+        "40..200 targets; EVERY case is run again with the same seed on the same targets in other orders (exhaustive scope: "
+        "every order, quick tier three of the five other orders of three targets; else reversed and two random ones) and all answers must be identical; the arguments must keep their "
+        "values and labels; "
         "distinct = distinct case; "
         "non-trivial = some peptide is "
         "written with flanks / modifications / lower-case marks or is unknown to the database (strip cases: a bracket, "
-        "parenthesis, '.' or an all-lower-case string occurs). A case passes if model and real code agree AND the "
+        "parenthesis, '.' or an all-lower-case string occurs; match_decoy cases: some decoy meets no or several targets of its "
+        "composition). A case passes if model and real code agree AND the "
         "property oracle accepts the real answer")
 ASSUMPTIONS = [
     "peptide strings are ASCII without newline (str.islower/upper modelled for A-Z/a-z; '.' of a regex = any character)",
@@ -71,13 +85,18 @@ ASSUMPTIONS = [
     "the target column is boolean (numpy bool or pandas' nullable boolean): integer or object flags make `~flag` mean something else and are refused inputs",
     "through assign_confidence a reported score within 2^-40 (relative) of a score of the table counts as that score: scores travel through "
     "delimited text and pandas' default float parser is not round-trip exact",
+    "match_decoy: ASCII peptide strings without NaN; a composition is the multiset of characters (targets, ignore_mods=True) or of "
+    "residues = an upper-case letter with what follows it up to the next one (decoys always; targets with ignore_mods=False), as the code has it",
     "the pair of a group in the oracle = target->decoy map applied to the group's first identifier as the database spells it "
     "(equal to the code's split(',')[0] unless an identifier contains a comma)",
 ]
 TRUSTED_EXTRA = [
     "Python `re` (oracle for the three substitutions; compared exhaustively with the scanners on short strings)",
     "DataFrame.sample(frac=1) (oracle: recorded row order = positions in the peptide table, which picked_protein relabels 0..n-1 whatever the caller's row labels are; contract: covers every retained row, no position twice)",
-    "peptides.match_decoy (oracle: recorded decoy->target peptide table; target-only FASTA)",
+    "Series.sample(frac=1) inside peptides.match_decoy (oracle: the recorded positions, in the sorted target list, in the order they "
+    "were drawn; contract: a permutation of 0..n-1, checked on every recorded shuffle; md_match refuses anything else). match_decoy itself "
+    "is no oracle any more: every call the real code makes during a case is compared with md_match (Model/MatchDecoy.v) on the same "
+    "arguments and the recorded shuffle; its recorded answer still feeds pk_picked, which is the same table once that comparison agrees",
     "mokapot.read_pin / OnDiskPsmDataset and the PSM / peptide levels of assign_confidence (C10, C03): the confidence streams feed "
     "one PSM per peptide string and spectrum; the extra-level stream adds PSMs that score below the row of their peptide and below "
     "the PSM whose spectrum they share, so that the peptide level (best PSM per peptide string among the PSMs that keep their "
@@ -722,8 +741,128 @@ def _gen_conf_levels(ctx):
     return out
 
 
-def gen(ctx):
+# ----------------------------------------------------------------------------- match_decoy stream
+def _arrangements(rng, comp, k):
+    """up to k distinct arrangements of the residues comp (a list of residue strings)"""
+    out, tries = [], 0
+    while len(out) < k and tries < 40:
+        tries += 1
+        r = list(comp)
+        rng.shuffle(r)
+        w = "".join(r)
+        if w not in out:
+            out.append(w)
+    return out
+
+
+def _md_orders(rng, n, k):
+    ords = []
+    if n >= 2:
+        ords.append(list(range(n - 1, -1, -1)))
+    for _ in range(k):
+        o = list(range(n))
+        rng.shuffle(o)
+        ords.append(o)
+    return ords
+
+
+def _md_case(rng, style):
+    """decoys / targets over a small residue alphabet: anagram groups of 1..4 targets, more / as many / fewer decoys
+    than targets per composition, decoys of a composition no target has, repeated decoys"""
+    if style == "upper":
+        res = rng.choice([["A", "B"], ["A", "B", "C"], ["K", "L", "M"]])
+    elif style == "mods":           # residues carrying a modification or a lower-case mark, as unstripped peptides do
+        res = rng.choice([["A", "B", "M[+16]"], ["A", "Bc", "C"], ["A", "B", "Cox", "K(ac)"]])
+    else:                           # mixed: lower-case letters / symbols also in front of the first residue
+        res = rng.choice([["A", "B", "a"], ["A", "b", "B"], ["A", "B", "-", "1"]])
+    comps = []
+    for _ in range(rng.randint(1, 4)):
+        comps.append([rng.choice(res) for _ in range(rng.randint(1, 4))])
+    targets, decoys = [], []
+    for comp in comps:
+        ts = _arrangements(rng, comp, rng.randint(1, 4))
+        nd = rng.choice([0, 1, max(0, len(ts) - 1), len(ts), len(ts) + 1, len(ts) + 2])
+        pool = _arrangements(rng, comp, 6)
+        decoys += [rng.choice(pool) for _ in range(nd)]
+        targets += ts
+    if rng.random() < 0.4:          # a decoy whose composition no target has
+        decoys.append("".join(rng.choice(res) for _ in range(rng.randint(1, 5))) + rng.choice(["W", ""]))
+    targets = list(dict.fromkeys(targets))
+    tags = ["match_decoy", "md-" + style]
+    if rng.random() < 0.8:
+        decoys = list(dict.fromkeys(decoys))    # picked_protein passes .unique()
+    if len(set(decoys)) < len(decoys):
+        tags.append("md-repeated-decoys")
+    if rng.random() < 0.1 and targets:
+        targets.append(rng.choice(targets))
+        tags.append("md-repeated-targets")
+    rng.shuffle(decoys)
+    rng.shuffle(targets)
+    c = {"fn": "match_decoy", "decoys": decoys, "targets": targets, "ignore_mods": rng.random() < 0.75,
+         "seed": rng.randrange(1 << 30), "orders": _md_orders(rng, len(targets), 2), "tags": tags}
+    if rng.random() < 0.5:
+        c["dtype"] = rng.choice(MD_DTYPES[1:])
+        tags.append("md-dtype-" + c["dtype"])
+    if rng.random() < 0.3:
+        c["index"] = rng.choice(["perm", "offset", "str", "dup", "neg"])
+        tags.append("md-index-" + c["index"])
+    if rng.random() < 0.5:
+        c["rng"] = rng.choice(["int", "npint", "rs", "global"])
+        tags.append("md-rng-" + c["rng"])
+    if not c["ignore_mods"]:
+        tags.append("md-ignore_mods=False")
+    return c
+
+
+def _gen_match_decoy(ctx):
     cases = []
+    fixed = [
+        ([], [], True), (["AB"], [], True), ([], ["AB", "BA"], True), (["BA"], ["AB", "BA"], True),
+        (["BA", "AB", "BA"], ["AB", "BA"], True), (["AB", "AB", "AB"], ["AB", "BA"], True),
+        (["AcB", "ABc", "Ab", "bA", "aB"], ["ABc", "AcB", "Ab", "bA", "Ba"], True),
+        (["AcB", "ABc", "Ab", "bA", "aB"], ["ABc", "AcB", "BAc", "bA", "Ba"], False),
+        (["A[+1]B", "BA[+1]"], ["B[+1]A", "BA[+1]", "A[+1]B"], False),
+        (["A[+1]B", "BA[+1]"], ["B[+1]A", "BA[+1]", "A[+1]B"], True),
+        (["", "A"], ["", "A", "a"], True), (["nAB", "ABn"], ["nBA", "BnA"], False),
+        (["ab", "ba"], ["ab", "ba"], True), (["ab", "ba"], ["ab", "ba"], False),
+    ]
+    for j, (ds, ts, im) in enumerate(fixed):
+        n = len(ts)
+        cases.append({"fn": "match_decoy", "decoys": ds, "targets": ts, "ignore_mods": im, "seed": 11 + j,
+                      "orders": [list(range(n - 1, -1, -1))] if n > 1 else [],
+                      "tags": ["match_decoy", "md-fixed"] + ([] if im else ["md-ignore_mods=False"])})
+    # exhaustive small scope: every set of <= 3 targets out of six strings (two anagram families and a loner) against
+    # every decoy list of length <= 2 (thorough: <= 3) over four strings, every order of the targets (quick: three of the five other orders of three targets), three seeds
+    uni_t = ["AB", "BA", "AAB", "ABA", "BAA", "C"]
+    uni_d = ["AB", "BA", "ABA", "CC"]
+    dlists = [list(x) for k in range(0, (3 if ctx.thorough else 2) + 1) for x in itertools.product(uni_d, repeat=k)]
+    for k in range(0, 4):
+        for tsel in itertools.combinations(uni_t, k):
+            perms = [list(o) for o in itertools.permutations(range(k))][1:]
+            if not ctx.thorough and k == 3:
+                perms = perms[::2]          # quick: three of the five other orders (among them the reversed one)
+            for ds in dlists:
+                for seed in ((1, 2, 3) if ctx.thorough else (1,)):
+                    cases.append({"fn": "match_decoy", "decoys": ds, "targets": list(tsel), "ignore_mods": True,
+                                  "seed": seed * 7919 + len(ds) + 5 * k, "orders": perms,
+                                  "tags": ["match_decoy", "md-exhaustive"]})
+    rng = ctx.sub("match-decoy")
+    for k in range(1600 if ctx.thorough else 300):
+        cases.append(_md_case(rng, ["upper", "upper", "mods", "mixed"][k % 4]))
+    # longer lists: 40..200 targets over few compositions
+    rng = ctx.sub("match-decoy-large")
+    for k in range(12 if ctx.thorough else 3):
+        res = ["A", "C", "D", "E"]
+        targets = list(dict.fromkeys("".join(rng.choice(res) for _ in range(rng.randint(3, 6))) for _ in range(rng.randint(40, 200))))
+        decoys = list(dict.fromkeys("".join(rng.sample(list(t), len(t))) for t in rng.sample(targets, len(targets) // 2) for _ in range(2)))
+        cases.append({"fn": "match_decoy", "decoys": decoys, "targets": targets, "ignore_mods": True,
+                      "seed": rng.randrange(1 << 30), "orders": _md_orders(rng, len(targets), 1),
+                      "tags": ["match_decoy", "md-large"]})
+    return cases
+
+
+def gen(ctx):
+    cases = _gen_match_decoy(ctx)
     # ---- strip columns as cases (the exhaustive part runs in extra_checks)
     rng = ctx.sub("strip")
     for s in ["A.B.C", "nABCc", "BL[+mod]AH", "A.B[1.1].C", "abc", "A.LES[+79.]LIEK.A", "K.PEP(ox)TIDE.-", "-.n[+42]PEPK.A",
@@ -870,20 +1009,31 @@ def _proteins(c):
     return _CACHE[k]
 
 
+def _strs(ser):
+    try:
+        return [str(v) for v in ser.to_list()]
+    except Exception:
+        return None
+
+
 class _Record:
-    """records the two oracles while the real code runs"""
+    """records the oracles while the real code runs, and every match_decoy call (arguments as passed, the
+    positions its sample(frac=1) drew, its answer) for the comparison with Model/MatchDecoy.v"""
 
     def __init__(self):
         self.order = None
         self.dm = None
         self.orders = []        # one per groupby_max call / match_decoy call, in call order
         self.dms = []
+        self.calls = []         # match_decoy call records, in call order
+        self._open = None       # the call record while a match_decoy call is running
 
     def __enter__(self):
         import pandas as pd
         import mokapot.picked_protein as pp
         self.pd, self.pp = pd, pp
         self.orig_sample = pd.DataFrame.sample
+        self.orig_ssample = pd.Series.sample
         self.orig_match = pp.match_decoy
         rec = self
 
@@ -903,18 +1053,46 @@ class _Record:
                 rec.orders.append(rec.order)
             return out
 
+        def ssample(ser, *a, **k):
+            # Series.sample(frac=1) inside match_decoy: the one random step.  sample draws POSITIONS and returns
+            # take(positions); the positions are read off by sampling the same values labelled 0..n-1 (one draw from the
+            # generator, as in the unpatched call), and the caller's Series is taken at them.
+            call = rec._open
+            if call is None or k.get("frac", a[1] if len(a) > 1 else None) != 1:
+                return rec.orig_ssample(ser, *a, **k)
+            out = rec.orig_ssample(ser.reset_index(drop=True), *a, **k)
+            perm = [int(v) for v in out.index]
+            call["shuffles"].append({"perm": perm, "values": _strs(ser)})
+            return ser.iloc[perm]
+
         def match(*a, **k):
-            out = rec.orig_match(*a, **k)
+            decoys = a[0] if len(a) > 0 else k.get("decoys")
+            targets = a[1] if len(a) > 1 else k.get("targets")
+            im = a[2] if len(a) > 2 else k.get("ignore_mods", True)
+            call = {"decoys": _strs(decoys), "targets": _strs(targets), "ignore_mods": bool(im), "shuffles": [],
+                    "result": None}
+            rec.calls.append(call)
+            prev, rec._open = rec._open, call
+            try:
+                out = rec.orig_match(*a, **k)
+            except BaseException as e:
+                call["result"] = ["err", lib.err_kind(e)]
+                raise
+            finally:
+                rec._open = prev
             rec.dm = [[str(d), str(t)] for d, t in out.items()]
+            call["result"] = ["ok", rec.dm]
             rec.dms.append(rec.dm)
             return out
 
         pd.DataFrame.sample = sample
+        pd.Series.sample = ssample
         pp.match_decoy = match
         return self
 
     def __exit__(self, *exc):
         self.pd.DataFrame.sample = self.orig_sample
+        self.pd.Series.sample = self.orig_ssample
         self.pp.match_decoy = self.orig_match
         return False
 
@@ -1092,7 +1270,7 @@ def _run_picked(c):
             ch = "the Proteins object"
         if ch is not None:
             res = ("err", "InputModified: " + ch)
-    out = {"P": P, "dm": rec.dm or [], "order": rec.order or [], "result": res, "den": den}
+    out = {"P": P, "dm": rec.dm or [], "order": rec.order or [], "result": res, "den": den, "md_calls": rec.calls}
     _CACHE[k] = out
     return out
 
@@ -1240,13 +1418,127 @@ def _run_confidence(c):
     # one picked_protein call per collection, in list order
     order = rec.orders[observed] if len(rec.orders) > observed else []
     dm = rec.dms[observed] if len(rec.dms) > observed else []
-    out = {"P": P, "dm": dm, "order": order, "result": res, "den": den}
+    out = {"P": P, "dm": dm, "order": order, "result": res, "den": den, "md_calls": rec.calls}
+    _CACHE[k] = out
+    return out
+
+
+# ----------------------------------------------------------------------------- peptides.match_decoy directly
+MD_DTYPES = [None, "object", "str", "string", "arrow", "keys"]
+
+
+def _md_series(vals, dtype, index=None, seed=0):
+    """a Series of peptide strings as a caller may hand it to match_decoy"""
+    import pandas as pd
+    if dtype == "keys" and len(set(vals)) == len(vals):
+        ser = pd.Series(dict.fromkeys(vals).keys())         # as group_without_decoys builds its targets
+    elif dtype in (None, "keys"):
+        ser = pd.Series(vals) if vals else pd.Series(vals, dtype=object)
+    elif dtype == "object":
+        ser = pd.Series(vals, dtype=object)
+    elif dtype == "str":
+        ser = pd.Series(vals, dtype="str")
+    else:
+        ser = pd.Series(vals, dtype={"string": "string[python]", "arrow": "string[pyarrow]"}[dtype])
+    labels = _index_labels(index, len(vals), seed) if vals else None
+    if labels is not None:
+        ser.index = pd.Index(labels)
+    return ser
+
+
+def _run_md(c):
+    """the real match_decoy on the case's decoys and targets, then on the same targets in every other order of
+    c['orders'] with the SAME seed -> dict(md_calls = the call records of all runs, result = the answer of the first
+    run | ('err', 'OrderDependent: ...') when another order of the targets gives another answer)"""
+    k = _key(c)
+    if k in _CACHE:
+        return _CACHE[k]
+    import numpy as np
+    n = len(c["targets"])
+    orders = [list(range(n))] + [o for o in c.get("orders", []) if sorted(o) == list(range(n))]
+    calls, answers = [], []
+    for o in orders:
+        tv = [c["targets"][j] for j in o]
+        ds = _md_series(c["decoys"], c.get("dtype"))
+        ts = _md_series(tv, c.get("dtype"), c.get("index"), c["seed"])
+        before = (list(ds), list(ts), ds.index.copy(), ts.index.copy())
+        np.random.seed(c["seed"] % (1 << 31))
+        rng = None if c.get("rng") == "global" else _rng_arg(c.get("rng"), c["seed"])
+        with _Record() as rec:
+            def go():
+                out = rec.pp.match_decoy(ds, ts, ignore_mods=bool(c.get("ignore_mods", True)), rng=rng)
+                return [[str(d), str(t)] for d, t in out.items()]
+            res = call_impl(go)
+        if res[0] == "ok" and (list(ds) != before[0] or list(ts) != before[1] or not ds.index.equals(before[2])
+                               or not ts.index.equals(before[3])):
+            res = ("err", "InputModified: values or row labels of the Series handed to match_decoy")
+        calls += rec.calls
+        answers.append(res)
+    result = answers[0]
+    for o, a in zip(orders[1:], answers[1:]):
+        if lib.jsonable(a) != lib.jsonable(answers[0]):
+            result = ("err", "OrderDependent: targets %r -> %r but the same targets as %r -> %r (same seed)"
+                      % (c["targets"], answers[0], [c["targets"][j] for j in o], a))
+            break
+    out = {"md_calls": calls, "result": result, "runs": len(orders)}
     _CACHE[k] = out
     return out
 
 
 def _run(c):
+    if c["fn"] == "match_decoy":
+        return _run_md(c)
     return _run_confidence(c) if c["fn"] == "confidence" else _run_picked(c)
+
+
+def _md_perm(call):
+    """the recorded oracle of a call: the positions its one sample(frac=1) drew (None: no usable record)"""
+    sh = call.get("shuffles") or []
+    if len(sh) != 1 or call.get("decoys") is None or call.get("targets") is None:
+        return None
+    return sh[0]["perm"]
+
+
+def _md_line(call, perm):
+    return "c15.match_decoy " + " ".join([lib.b(call["ignore_mods"]), lib.lst(perm), lib.lst(call["decoys"], lib.s),
+                                          lib.lst(call["targets"], lib.s)])
+
+
+def _md_decode(t):
+    r = t.result(lambda: t.lst(lambda: [t.s(), t.s()]))
+    return [r[0], r[1]]
+
+
+def _md_models(calls):
+    """md_match (Model/MatchDecoy.v) on the recorded arguments and the recorded shuffle of every given call record
+    that has no model answer yet; one driver run"""
+    lines, todo = [], []
+    for x in calls:
+        if "model" in x:
+            continue
+        perm = _md_perm(x)
+        if perm is None:
+            x["model"] = ["no-oracle", "%d sample(frac=1) calls inside match_decoy" % len(x.get("shuffles") or [])]
+        else:
+            lines.append(_md_line(x, perm))
+            todo.append(x)
+    for x, o in zip(todo, lib.run_driver(lines)):
+        x["model"] = _md_decode(lib.Toks(o))
+
+
+def _md_disagreement(c):
+    """sub-comparison of a case: every match_decoy call the real code made during the case against md_match on the
+    same arguments and the recorded shuffle -> None | message"""
+    calls = _run(c).get("md_calls") or []
+    if any("model" not in x for x in calls):
+        # every call recorded so far and not yet answered, in one driver run
+        pend = [x for v in list(_CACHE.values()) if isinstance(v, dict) for x in (v.get("md_calls") or []) if "model" not in x]
+        _md_models(pend + [x for x in calls if "model" not in x and not any(x is y for y in pend)])
+    for j, x in enumerate(calls):
+        if lib.jsonable(x["model"]) != lib.jsonable(x["result"]):
+            return ("match_decoy call %d of the case: decoys %r, targets %r, ignore_mods=%r, shuffle %r: real answer %r, "
+                    "md_match %r" % (j, x["decoys"], x["targets"], x["ignore_mods"], _md_perm(x), x["result"], x["model"]))
+    return None
 
 
 # ----------------------------------------------------------------------------- model side
@@ -1274,6 +1566,12 @@ def encode(c):
     if c["fn"] == "strip":
         return "c15.strip_all " + lib.lst(c["col"], lib.s)
     r = _run(c)
+    if c["fn"] == "match_decoy":
+        call = r["md_calls"][0]
+        perm = _md_perm(call)
+        # no usable shuffle record: the empty shuffle, which md_match refuses unless there is no target (and the
+        # sub-comparison reports the missing oracle)
+        return _md_line(call, perm if perm is not None else [])
     P = r["P"]
     row = lambda x: " ".join([lib.b(x[0]), lib.s(x[1]), lib.z(x[2])])
     entry = "c15.picked_q " if c["fn"] == "confidence" else "c15.picked "
@@ -1288,6 +1586,8 @@ def _dec_entry(t):
 def decode(c, t):
     if c["fn"] == "strip":
         return t.lst(t.s)
+    if c["fn"] == "match_decoy":
+        return tuple(_md_decode(t))
     if c["fn"] == "confidence":
         r = t.result(lambda: t.lst(lambda: [_dec_entry(t), t.q()]))
         return ("ok", sorted(r[1], key=lambda e: e[0])) if r[0] == "ok" else r
@@ -1391,7 +1691,12 @@ def _same_model(c, m, i):
 def same(c, m, i):
     if c["fn"] == "strip":
         return list(m) == list(i)
+    if c["fn"] == "match_decoy":
+        return lib.jsonable(m) == lib.jsonable(i) and _md_disagreement(c) is None and oracle(c, i) is None
     if not _same_model(c, m, i):
+        return False
+    # every match_decoy call of the run (target-only FASTA) against Model/MatchDecoy.v
+    if _md_disagreement(c) is not None:
         return False
     # agreement with the model is not enough where the comparison is coarse (tie stream: pair -> score) or the model
     # follows the code by construction (how a group name is split): the property itself must hold on the answer
@@ -1401,7 +1706,7 @@ def same(c, m, i):
 def finding_key(c, m, i):
     """structural key of a disagreement that belongs to a known finding (known_findings.json): the input class AND
     the symptom must match"""
-    if c["fn"] == "strip":
+    if c["fn"] in ("strip", "match_decoy"):
         return None
     if _is_colliding(c):
         return "picked_protein:column-name-collides-with-internal-column"
@@ -1413,6 +1718,13 @@ def finding_key(c, m, i):
 def nontrivial(c):
     if c["fn"] == "strip":
         return any(ch in s for s in c["col"] for ch in "[(.") or any(s.lower() == s and s for s in c["col"])
+    if c["fn"] == "match_decoy":
+        # the shuffle matters (a decoy meets two or more targets of its composition) or a decoy goes without a target
+        nt = {}
+        for t in c["targets"]:
+            k = spec_key(t, not c.get("ignore_mods", True))
+            nt[k] = nt.get(k, 0) + 1
+        return any(nt.get(spec_key(d, True), 0) != 1 for d in c["decoys"])
     if any(r[1] != r[3] for r in c["rows"]):
         return True
     return any(r[3] == "?" for r in c["rows"])
@@ -1430,6 +1742,60 @@ def _group_of(P, dm, s):
     return g
 
 
+def spec_key(s, mods):
+    """composition of a peptide string as match_decoy takes it, written without regular expressions and without the
+    model: mods=False -> its characters; mods=True -> its residues, a residue being an upper-case letter with everything
+    that follows it up to the next upper-case letter (what precedes the first upper-case letter is a piece of its own)"""
+    if not mods:
+        return "".join(sorted(s))
+    pieces, cur = [], ""
+    for ch in s:
+        if "A" <= ch <= "Z":
+            pieces.append(cur)
+            cur = ch
+        else:
+            cur += ch
+    pieces.append(cur)
+    return "".join(sorted(pieces))
+
+
+def _oracle_md(c, i):
+    """C15_match_decoy_composition / _injective / _exhausts / _dict and C08_match_decoy_order_independent, read off the
+    dict the real match_decoy returned"""
+    if i[0] != "ok":
+        if str(i[1]).startswith("OrderDependent"):
+            return "match_decoy with the same seed depends on the order of the targets: " + str(i[1])[16:]
+        if str(i[1]).startswith("InputModified"):
+            return "match_decoy changed its arguments (" + str(i[1])[15:] + ")"
+        return f"match_decoy({c['decoys']!r}, {c['targets']!r}) failed with {i[1]}"
+    from collections import Counter
+    tmods = not c.get("ignore_mods", True)
+    ds, ts, items = c["decoys"], c["targets"], i[1]
+    if len({d for d, _ in items}) != len(items):
+        return f"a decoy occurs twice among the items {items!r}"
+    for d, t in items:
+        if d not in ds or t not in ts:
+            return f"pair {(d, t)!r}: not a decoy / not a target of the call"
+        if spec_key(d, True) != spec_key(t, tmods):
+            return f"pair {(d, t)!r}: the decoy and its target differ in composition"
+    over = Counter(t for _, t in items) - Counter(ts)
+    if over:
+        return f"target {sorted(over)[0]!r} is handed out more often than it occurs among the targets"
+    # per composition the first min(#decoys, #targets) decoy occurrences are matched, the others are not
+    nt = Counter(spec_key(t, tmods) for t in ts)
+    seen, expect = Counter(), []
+    for d in ds:
+        k = spec_key(d, True)
+        if seen[k] < nt.get(k, 0) and d not in expect:
+            expect.append(d)
+        seen[k] += 1
+    got = [d for d, _ in items]
+    if got != expect:
+        return (f"matched decoys {got!r}; per composition the first min(#decoys, #targets) occurrences must be matched, "
+                f"in decoy order: {expect!r}")
+    return None
+
+
 def oracle(c, i):
     if c["fn"] == "strip":
         exp = spec_strip_col(c["col"])
@@ -1438,6 +1804,8 @@ def oracle(c, i):
             return (f"strip_peptides({c['col']!r}) = {list(i)!r}; modifications / flanks removed by definition gives {exp!r}"
                     + (f" (row {j})" if j >= 0 else ""))
         return None
+    if c["fn"] == "match_decoy":
+        return _oracle_md(c, i)
     r = _run(c)
     P, dm = r["P"], r["dm"]
     pres = c.get("pres") or {}
@@ -1511,6 +1879,27 @@ def shrink(c):
         for j, s in enumerate(col):
             for k in range(len(s)):
                 yield dict(c, col=col[:j] + [s[:k] + s[k + 1:]] + col[j + 1:])
+        return
+    if c["fn"] == "match_decoy":
+        for f in ("dtype", "index", "rng"):
+            if c.get(f):
+                yield {k: v for k, v in c.items() if k != f}
+        ords = c.get("orders") or []
+        for j in range(len(ords)):
+            if len(ords) > 1:
+                yield dict(c, orders=[ords[j]])
+        ds, ts = c["decoys"], c["targets"]
+        for j in range(len(ds)):
+            yield dict(c, decoys=ds[:j] + ds[j + 1:])
+        for j in range(len(ts)):
+            yield dict(c, targets=ts[:j] + ts[j + 1:],
+                       orders=[[x - (x > j) for x in o if x != j] for o in ords])
+        for j, d in enumerate(ds):
+            for k in range(len(d)):
+                yield dict(c, decoys=ds[:j] + [d[:k] + d[k + 1:]] + ds[j + 1:])
+        for j, t in enumerate(ts):
+            for k in range(len(t)):
+                yield dict(c, targets=ts[:j] + [t[:k] + t[k + 1:]] + ts[j + 1:])
         return
     # presentation facets first, one at a time: a failing case ends with the facet that matters
     p = c.get("pres") or {}
@@ -1630,6 +2019,54 @@ def extra_checks(ctx):
         need = {jm for jm, x in enumerate(_model_rows(c)) if _group_of(v["P"], v["dm"], st[x[3]]) is not None}
         if not need <= set(v["order"]):
             nmiss += 1
+    # (e) match_decoy: the recorded shuffles are permutations of the positions (oracle contract of md_match), and what
+    # sample received was the sorted target list
+    nsh = nbad = nunsorted = 0
+    for v in list(_CACHE.values()):
+        if not isinstance(v, dict):
+            continue
+        for x in v.get("md_calls") or []:
+            for sh in x.get("shuffles") or []:
+                nsh += 1
+                if sorted(sh["perm"]) != list(range(len(x["targets"] or []))):
+                    nbad += 1
+                if sh["values"] != sorted(x["targets"] or []):
+                    nunsorted += 1
+    # (f) composition keys and the sort against the real residue_sort / sort_values on every string over {A,B,a,[} up to
+    # length 5 (6)
+    from mokapot.peptides import residue_sort
+    import pandas as pd
+    kstrs = list(_all_strings("ABa[", 6 if ctx.thorough else 5))
+    nkey = 0
+    for im, entry in ((True, "c15.md_key_plain"), (False, "c15.md_key_mods")):
+        real = {}
+        for key, peps in residue_sort(pd.Series(kstrs), im).items():
+            for q in peps:
+                real[q] = key
+        outs = lib.run_driver(["%s %s" % (entry, lib.s(x)) for x in kstrs])
+        for x, o in zip(kstrs, outs):
+            nkey += 1
+            got = lib.Toks(o).s()
+            if got != real.get(x) or got != spec_key(x, not im):
+                fails.append({"what": f"composition key of {x!r} (ignore_mods={im}): residue_sort {real.get(x)!r}, "
+                                      f"model {got!r}, specification {spec_key(x, not im)!r}", "failing_input": None})
+                break
+    srng = ctx.sub("md-sort")
+    nsort = 0
+    lists = [[srng.choice(kstrs[:400]) for _ in range(srng.randint(0, 12))] for _ in range(300 if ctx.thorough else 80)]
+    outs = lib.run_driver(["c15.md_sort_strs " + lib.lst(l, lib.s) for l in lists])
+    for l, o in zip(lists, outs):
+        t = lib.Toks(o)
+        got = t.lst(t.s)
+        nsort += 1
+        if got != pd.Series(l, dtype="str").sort_values().to_list() or got != sorted(l):
+            fails.append({"what": f"sort_values of {l!r}: model {got!r}", "failing_input": None})
+            break
+    info["match_decoy_checks"] = {"shuffles_recorded": nsh, "not_a_permutation": nbad, "sample_input_not_sorted": nunsorted,
+                                  "composition_keys_compared": nkey, "sorts_compared": nsort}
+    if nbad:
+        fails.append({"what": f"Series.sample contract broken: {nbad} of {nsh} recorded shuffles inside match_decoy are no "
+                              f"permutation of the target positions", "failing_input": None})
     info["oracle_contract_checks"] = {"sample_orders_checked": nord, "with_duplicates": ndup, "missing_retained_rows": nmiss}
     if ndup or nmiss:
         fails.append({"what": f"DataFrame.sample contract broken: {ndup} orders with duplicated labels, {nmiss} not covering "
